@@ -16,6 +16,8 @@ CHECKS = {
  "C17": dict(fam="proc", ref="4.2", text="Same pipeline with the continuous sink and test-recording requests: every accepted frame once and in order on the continuous sink, files of MaxF+1, test recording of exactly 21 consecutive frames from the next frame, and the motion-sink projection equal to that of a shadow processor without continuous sink and requests."),
  "C19": dict(fam="ring", ref="4.3", note="Trusted: TLC; frames tagged in pixels; API usage pattern (fill Current, then Move).", text="TLC proves for every capacity <= 5 (6 thorough) and every operation sequence within the tag bound that the code-shaped index arithmetic of FrameLoop.tla equals the declarative history/oldest/recent operators; every edge of the dumped graphs (cap 1..3/5) plus random sequences up to capacity 64 are executed on the real FrameLoop and every query answer is compared by TLC with the declarative operators."),
  "C20": dict(fam="loglim", ref="4.10", note="Trusted: TLC; injected clock via the unexported nowFunc (in-package driver); standard logger captured.", text="TLC checks the code-shaped limiter against the declarative rule (printed iff not (same as last printed and < interval)) as an action property for all message/time sequences in the bound; transition cover + seeded histories run on the real LogLimiter with an injected clock and the captured output is judged by the TLA+ rule; the recorder's one-minute constant is read in-package."),
+ "C05": dict(fam="throttle", ref="4.5", note="Trusted: TLC; the injected ratelimit.Clock (ms); K integral so the library's float fill interval cannot move a tick; main.go wiring of the throttle is bound in the files family.", text="TLC checks exhaustively (both library variants, relative time, clock steps around the refill boundary) that the code-shaped Throttle.tla never exceeds the window bound (count - Cap - 2)*K*100 <= span*101, carried as a max-subarray potential in the observer ThrMon; the same observer judges traces of the real ThrottledRecorder driven by a transition cover, seeded schedules and the real MotionProcessor under continuous motion with a scripted clock."),
+ "C06": dict(fam="throttle", ref="4.5", note="Trusted: TLC; injected clock; budget bounds lo (exact) / hi (ratelimit v1.0.1 stale-tick accounting) so that either library behaviour is accepted.", text="Same pipeline as C05; observer clauses: pairing towards the base recorder, forwarding unchanged when lo suffices, no forwarding/restart when hi does not, cut files >= minimum length, exactly one event per suppressed start or cut, start failures propagated; real traces additionally validated as behaviours of Throttle.tla."),
 }
 NOT_YET = {
 }
@@ -43,7 +45,8 @@ def main():
         hooks=dict(guard="verif", enable="go build -tags verif (drivers are compiled inside a scratch copy of /repo's working tree)",
                    baseline_off_cmd="cd /repo && go build ./... && go test -vet=off -count=1 ./...",
                    source_commits=[], add_only=True),
-        engines=[dict(name="tlc-ring", path="tools/fam_ring.py", serves_properties=["C19"], kind_free_text="TLC around spec/FrameLoop.tla; driver harness/ext/ringdrv"),
+        engines=[dict(name="tlc-throttle", path="tools/fam_throttle.py", serves_properties=["C05", "C06"], kind_free_text="TLC around spec/Throttle.tla + ThrMon.tla; driver harness/ext/thrdrv (direct and real-processor modes)"),
+                 dict(name="tlc-ring", path="tools/fam_ring.py", serves_properties=["C19"], kind_free_text="TLC around spec/FrameLoop.tla; driver harness/ext/ringdrv"),
                  dict(name="tlc-loglim", path="tools/fam_loglim.py", serves_properties=["C20"], kind_free_text="TLC around spec/LogLimiter.tla; in-package driver harness/inpkg/loglimiter"),
                  dict(name="tlc-proc", path="tools/fam_proc.py", serves_properties=[p for p in CHECKS if CHECKS[p]["fam"]=="proc"],
                       kind_free_text="TLC (exhaustive + graph dump + simulate + trace validation) around spec/Processor.tla, ProcMon.tla; Go driver harness/ext/procdrv")],
